@@ -57,6 +57,7 @@ impl Monitor for C07 {
             ("class:scatter_of_empty_array", 5),
             ("class:tournament_merge_order", 6),
             ("class:arrays_up_to_40", 500),
+            ("class:arrays_of_several_hundred_elements", 100),
             ("class:repeat_run_longer_than_16", 50),
             ("api:gather", 100),
             ("api:scatter", 100),
